@@ -54,12 +54,18 @@ const vfToolTemplate = `{{- if .Tools }}{{ .Tools }} {{ end }}{{- range .Message
 {{- range .ToolCalls }}{"name": "{{ .Function.Name }}", "arguments": {{ .Function.Arguments }}}
 {{- end }} {{ end }}`
 
-func vfGGUFBytes(extra int) []byte {
+func vfGGUFBytes(extra int) []byte { return vfGGUFBytesKV(extra, nil) }
+
+func vfGGUFBytesKV(extra int, more map[string]any) []byte {
 	dir, _ := os.MkdirTemp("", "vfgguf")
 	defer os.RemoveAll(dir)
 	p := filepath.Join(dir, "m.gguf")
 	f, _ := os.Create(p)
-	err := ggml.WriteGGUF(f, ggml.KV{
+	kv := ggml.KV{}
+	for k, v := range more {
+		kv[k] = v
+	}
+	base := ggml.KV{
 		"general.architecture":          "llama",
 		"llama.block_count":             uint32(1),
 		"llama.context_length":          uint32(8192),
@@ -69,7 +75,11 @@ func vfGGUFBytes(extra int) []byte {
 		"tokenizer.ggml.tokens":         []string{""},
 		"tokenizer.ggml.scores":         []float32{0},
 		"tokenizer.ggml.token_type":     []int32{0},
-	}, []ggml.Tensor{
+	}
+	for k, v := range base {
+		kv[k] = v
+	}
+	err := ggml.WriteGGUF(f, kv, []ggml.Tensor{
 		{Name: "token_embd.weight", Shape: []uint64{1}, WriterTo: bytes.NewReader(make([]byte, 4))},
 		{Name: "blk.0.attn_norm.weight", Shape: []uint64{uint64(1 + extra)}, WriterTo: bytes.NewReader(make([]byte, 4*(1+extra)))},
 		{Name: "output.weight", Shape: []uint64{1}, WriterTo: bytes.NewReader(make([]byte, 4))},
